@@ -56,7 +56,7 @@ fn main() {
             check_visual(&mut rep, idx, &stream, thr, f32::MAX, minv, &res, &ctx, "C12/engine");
         }
     }
-    let n = cli.cases(800, 12_000);
+    let n = cli.cases(1600, 12_000);
     for idx in cli.index_range(n) {
         if idx >> 40 != 0 {
             continue;
@@ -81,7 +81,7 @@ fn main() {
         let w = WorldOpts {
             scenes: if multi { 2 + rng.usize(2) } else { 1 + rng.usize(2) },
             same_region: rng.chance(if multi { 0.7 } else { 0.3 }),
-            preset: *rng.pick(&["lookalikes", "crossing", "crowd", "convoy", "random", "lookalikes"]),
+            preset: *rng.pick(&["lookalikes", "crossing", "crowd", "convoy", "random", "lookalikes", "pack"]),
             rotated: rng.chance(0.2),
             features: true,
             feat_dim: *rng.pick(&[2usize, 3, 8, 16]),
